@@ -1,7 +1,7 @@
 (* C08: the cases written by the harness (harness/src/c08.rs) and how the models are run on them.
    Definitions only. *)
 From ZV.Common Require Import Base Run.
-From ZV.C08 Require Import Model ModelFixedCap.
+From ZV.C08 Require Import Model ModelFixedCap ModelStats.
 Open Scope N_scope.
 
 Definition eqb_oln (a b : option (list N)) : bool :=
@@ -36,12 +36,25 @@ Definition ok_fc (c : fc_case) : bool :=
   let '(f1, f2, f3, f4) := ffinal_obs cf s 80 in
   eqb_ln (flat ev) notes && eqb_ln f1 fin && eqb_loln f2 frees && eqb_lln f3 helds && eqb_ln f4 stats.
 
+(* the same with the counters the pool reports at the end (ModelStats.stats_obs) *)
+Definition tag2_case : Type := (tag_case * list N)%type.
+Definition ok_tag2 (c2 : tag2_case) : bool :=
+  let '(c, st) := c2 in
+  let '(kind, bs, capacity, nthr, sc, notes, fin, free, helds) := c in
+  let cf := if kind =? 0 then cfg_lockfree bs capacity else cfg_fivelevel bs capacity in
+  let '(x, ev) := xrun_trace cf (xinit nthr cf) sc in
+  let '(f1, f2, f3) := final_obs cf (xs x) 64 in
+  eqb_ln (flat ev) notes && eqb_ln f1 fin && eqb_oln f2 free && eqb_lln f3 helds &&
+  eqb_ln (stats_obs cf (xst x)) st.
+
 Inductive xcase :=
 | XTag (c : tag_case)
+| XTag2 (c : tag2_case)
 | XFC (c : fc_case).
 
 Definition xok (c : xcase) : bool :=
   match c with
   | XTag c => ok_tag c
+  | XTag2 c => ok_tag2 c
   | XFC c => ok_fc c
   end.
